@@ -12,4 +12,5 @@ class Check(PropertyCheck):
 
     def families(self, rng, tier):
         return [("world.general", fam_world.general_histories(rng, tier)), ("world.extreme", fam_world.extreme_histories(rng, tier)), ("world.router", fam_world.router_histories(rng, tier)),
-                ("world.lookalike", fam_world.lookalike_histories(rng, tier))]
+                ("world.lookalike", fam_world.lookalike_histories(rng, tier)),
+                ("world.reseed", fam_world.reseed_histories(rng, tier))]
